@@ -418,6 +418,10 @@ class Mp4Atom(ObjectWithFields):
             hdr = Mp4Atom.parse(src, parent, options=options)
             if hdr is None:
                 break
+            if end is not None and hdr['position'] + hdr['size'] > end:
+                raise ValueError(
+                    'Box "{}" at position {:d} with size {:d} extends beyond its parent'.format(
+                        hdr['atom_type'], hdr['position'], hdr['size']))
             try:
                 Box = fourcc.BOXES[hdr['atom_type']]
             except KeyError:
@@ -582,9 +586,10 @@ class Mp4Atom(ObjectWithFields):
                 options.log.debug('Failed to read atom type. pos=%d', position)
             return None
         if size == 0:
+            # box extends to the end of the file
             pos = src.tell()
             src.seek(0, 2)  # seek to end
-            size = src.tell() - pos
+            size = src.tell() - position
             src.seek(pos)
         elif size == 1:
             size_ext = src.read(8)
@@ -602,11 +607,15 @@ class Mp4Atom(ObjectWithFields):
             atom_type = f'UUID({uuid})'
         else:
             atom_type = str(atom_type, 'ascii')
+        header_size = src.tell() - position
+        if size < header_size:
+            raise ValueError(
+                f'Invalid size {size} for box "{atom_type}" at position {position}')
         return {
             "atom_type": atom_type,
             "position": position,
             "size": size,
-            "header_size": src.tell() - position,
+            "header_size": header_size,
             "_buffer": b''.join(buf),
         }
 
